@@ -137,6 +137,10 @@ pub struct Gen<'a, 'd> {
     closure_vars: HashSet<VarId>,
     /// functions whose result is a closure they create
     closure_ret_fns: HashSet<usize>,
+    /// generic functions with a type parameter that occurs only in the result type
+    phantom_fns: HashSet<usize>,
+    /// generic functions that call themselves at permuted type arguments (last parameter = fuel)
+    polyrec_fns: HashSet<usize>,
 }
 
 fn is_printable_ty(t: &Ty) -> bool {
@@ -170,6 +174,8 @@ impl<'a, 'd> Gen<'a, 'd> {
             active_scrutinees: vec![],
             closure_vars: HashSet::new(),
             closure_ret_fns: HashSet::new(),
+            phantom_fns: HashSet::new(),
+            polyrec_fns: HashSet::new(),
         }
     }
 
@@ -1506,12 +1512,9 @@ impl<'a, 'd> Gen<'a, 'd> {
 
     /// `let x = f(args);` for a generated function (type arguments chosen here)
     fn let_fn_call(&mut self, fuel: i32) -> Option<Vec<Stmt>> {
-        let cands: Vec<usize> = self
-            .callable
-            .iter()
-            .copied()
-            .filter(|f| self.user_fns.contains(f))
-            .collect();
+        // every generated function (also those that are only called from here:
+        // closure-returning, phantom-result and polymorphically recursive ones)
+        let cands: Vec<usize> = self.user_fns.clone();
         if cands.is_empty() {
             return None;
         }
@@ -1533,12 +1536,18 @@ impl<'a, 'd> Gen<'a, 'd> {
         if ret.has_param() {
             return None;
         }
-        let args = self.call_args(&ps, fuel);
+        let mut args = self.call_args(&ps, fuel);
+        if self.polyrec_fns.contains(&f) {
+            // the recursion depth
+            let n = self.d.below(4) as i128;
+            *args.last_mut().unwrap() = Expr::Int(IK::I32, n, false);
+        }
         let v = self.new_var(ret.clone(), true);
         // a returned closure keeps its closure type only without an annotation (KF-05)
         let from_closure_fn = self.closure_ret_fns.contains(&f);
         if from_closure_fn {
             self.closure_vars.insert(v);
+            self.label("closure:returned-called");
         }
         let ann = if from_closure_fn && !self.esc_ok { None } else { Some(ret) };
         Some(vec![Stmt::Let(Pat::Var(v), ann, Expr::Call(Callee::Fn(f, targs), args))])
@@ -1693,7 +1702,114 @@ impl<'a, 'd> Gen<'a, 'd> {
 
     // ------------------------------------------------------------ functions
 
+    /// `fn e[T](..) -> Vec[T] { ..; vec_new() }` / `-> E[T] { ..; E::Nullary }`:
+    /// the instantiation is fixed by the expected result type only
+    fn gen_phantom_fn(&mut self, idx: usize) -> bool {
+        let mut rets: Vec<(Ty, Expr)> = vec![];
+        if self.cfg.containers {
+            rets.push((Ty::Vec(Box::new(Ty::Param(0))), Expr::Call(Callee::Builtin(Builtin::VecNew), vec![])));
+        }
+        for (i, a) in self.p.adts.iter().enumerate() {
+            if let AdtKind::Enum(vs) = &a.kind {
+                if a.tparams == 1 {
+                    if let Some(v) = vs.iter().position(|(_, ps)| ps.is_empty()) {
+                        rets.push((Ty::Adt(i, vec![Ty::Param(0)]), Expr::Con(i, v as u32, vec![], true)));
+                    }
+                }
+            }
+        }
+        if rets.is_empty() {
+            return false;
+        }
+        let (ret, fin) = rets[self.d.below(rets.len())].clone();
+        self.scope.clear();
+        self.cur_tparams = 0;
+        let n = self.d.below(3);
+        let mut taken: Vec<String> = vec![];
+        let mut params = vec![];
+        for _ in 0..n {
+            let t = self.ty(1);
+            params.push((self.new_param(t.clone(), &mut taken), t));
+        }
+        let k = self.d.below(3);
+        let mut stmts = vec![];
+        for _ in 0..k {
+            if self.budget <= 0 {
+                break;
+            }
+            stmts.extend(self.stmt(2));
+        }
+        self.scope.clear();
+        self.label("generic-fn");
+        self.label("generic-fn:phantom-result");
+        self.phantom_fns.insert(idx);
+        self.p.fns[idx] = FnDef {
+            name: self.item_name(&HOSTILE_FNS, format!("f{}", idx)),
+            tparams: 1,
+            params,
+            ret,
+            body: Expr::Block(stmts, Some(Box::new(fin))),
+        };
+        true
+    }
+
+    /// `fn r[A, B](a: A, b: B, n: int32) -> int32 { if n <= 0 { base } else { 1 + r(b, a, n - 1) } }`
+    fn gen_polyrec_fn(&mut self, idx: usize) {
+        let tparams = 2 + self.d.below(2) as u32;
+        self.scope.clear();
+        self.cur_tparams = tparams;
+        let mut params = vec![];
+        for k in 0..tparams {
+            let t = Ty::Param(k);
+            params.push((self.fresh_named("p", t.clone()), t));
+        }
+        let n = self.fresh_named("n", Ty::i32());
+        params.push((n, Ty::i32()));
+        // rotation by one position (a swap for two parameters)
+        let perm: Vec<u32> = (0..tparams).map(|k| (k + 1) % tparams).collect();
+        let mut args: Vec<Expr> = perm.iter().map(|k| Expr::Var(params[*k as usize].0)).collect();
+        args.push(Expr::Bin(BinOp::Sub, Box::new(Expr::Var(n)), Box::new(Expr::Int(IK::I32, 1, false))));
+        let rec = Expr::Call(Callee::Fn(idx, perm.iter().map(|k| Ty::Param(*k)).collect()), args);
+        let step = if self.cfg.ticks { self.tick(&Ty::i32(), rec) } else { rec };
+        let base = self.expr(&Ty::i32(), 2);
+        let body = Expr::If(
+            Box::new(Expr::Bin(BinOp::Le, Box::new(Expr::Var(n)), Box::new(Expr::Int(IK::I32, 0, false)))),
+            Box::new(Expr::Block(vec![], Some(Box::new(base)))),
+            Box::new(Expr::Block(
+                vec![],
+                Some(Box::new(Expr::Bin(BinOp::Add, Box::new(Expr::Int(IK::I32, 1, false)), Box::new(step)))),
+            )),
+        );
+        self.scope.clear();
+        self.label("generic-fn");
+        self.label("generic-fn:permuted-recursion");
+        self.polyrec_fns.insert(idx);
+        self.p.fns[idx] = FnDef {
+            name: self.item_name(&HOSTILE_FNS, format!("f{}", idx)),
+            tparams,
+            params,
+            ret: Ty::i32(),
+            body,
+        };
+        self.cur_tparams = 0;
+    }
+
     fn gen_fn(&mut self, idx: usize) {
+        if self.cfg.generics {
+            let w = if self.cfg.focus == Focus::Generics { 45 } else { 12 };
+            match self.d.weighted(&[256 - 2 * w, w, w]) {
+                1 => {
+                    if self.gen_phantom_fn(idx) {
+                        return;
+                    }
+                }
+                2 => {
+                    self.gen_polyrec_fn(idx);
+                    return;
+                }
+                _ => {}
+            }
+        }
         let generic = self.cfg.generics && self.d.chance(if self.cfg.focus == Focus::Generics { 200 } else { 90 });
         let tparams = if generic { 1 + self.d.below(2) as u32 } else { 0 };
         self.cur_tparams = tparams;
@@ -1837,7 +1953,10 @@ impl<'a, 'd> Gen<'a, 'd> {
             });
             self.gen_fn(idx);
             // a closure-returning function is only called from `let x = f(..);` (KF-05)
-            if self.esc_ok || !self.closure_ret_fns.contains(&idx) {
+            let only_let_call = (!self.esc_ok && self.closure_ret_fns.contains(&idx))
+                || self.phantom_fns.contains(&idx)
+                || self.polyrec_fns.contains(&idx);
+            if !only_let_call {
                 self.callable.push(idx);
             }
             self.user_fns.push(idx);
